@@ -312,7 +312,8 @@ func (s *streamPool) SendById(ctx context.Context, msg drpc.Message, peerIds ...
 			if e := st.write(msg); e != nil {
 				st.l.Debug("sendById write error", zap.Error(e))
 			} else {
-				return
+				// delivered to this peer: go on with the next peer
+				break
 			}
 		}
 	}
